@@ -23,9 +23,10 @@ if [ -z "$SKIPTESTS" ]; then
 fi
 cp $OUT/demo_test.go $DEMODIR/zz_demo_test.go
 go test $FLAGS -vet=off -count=1 -run 'ZZ|Demo' ./$DEMODIR > /tmp/seed_d1_$P.log 2>&1; D1=$?
-git stash -q -- $(git diff --name-only) 2>/dev/null
+# NOTE: no git stash here - the stash is shared by all worktrees of a repository
+mv $DEMODIR/zz_demo_test.go /tmp/seed_demo_$P.go; git checkout -q -- .; mv /tmp/seed_demo_$P.go $DEMODIR/zz_demo_test.go
 go test $FLAGS -vet=off -count=1 -run 'ZZ|Demo' ./$DEMODIR > /tmp/seed_d0_$P.log 2>&1; D0=$?
-git stash pop -q
+git apply $OUT/patch.diff
 rm -f $DEMODIR/zz_demo_test.go
 echo "SEED $P/$N: existing-tests-with-patch exit=$T1 (want 0); demo-with-patch exit=$D1 (want !=0); demo-without exit=$D0 (want 0)"
 git status --short | head -5
